@@ -116,6 +116,7 @@ class Prop:
             'install; distinct = distinct (configuration, canonical request stream); the thorough tier adds every sequence of <= 3 operations '
             'over a 16-letter alphabet after a two-insert prefix (4368 cases) and 495 kernel reference-count sequences')
     exhaustive = {'quick': False, 'thorough': False}
+    ops_field = 'ops'           # lib/vp/check.py shrink_case drops operations of a failing history
     trusted_base = [
         'C20: the RIB is abstracted to what distribute_update / ecmp_paths / the NHT calls read: per path (peer, session, path id, next hop, '
         'attribute-block identity, rank class, LLGR_STALE/NO_LLGR bits, route targets, filtered, next-hop-invalid); RibEntry::cmp is its '
@@ -368,28 +369,6 @@ class Prop:
 
     def in_known_class(self, kf, c, obs, why):
         return False
-
-    def shrink(self, c, why):
-        """drop operations while the implementation still fails the Spec oracle"""
-        if c.get('kind') == 'ref':
-            return c
-        import re
-        m = re.match(r'step (\d+):', why or '')
-        cur = dict(c)
-        if m:
-            cur['ops'] = c['ops'][:int(m.group(1)) + 1]
-        for _ in range(40):
-            cands = [dict(cur, ops=cur['ops'][:i] + cur['ops'][i + 1:]) for i in range(len(cur['ops']))]
-            if not cands:
-                break
-            obs, err = self.run_impl(cands, 'quick')
-            if obs is None:
-                break
-            nxt = next((cd for cd, o in zip(cands, obs) if self.oracle(cd, o)), None)
-            if nxt is None:
-                break
-            cur = nxt
-        return cur
 
     def nontrivial_key(self, c, obs):
         if c.get('kind') == 'ref':
